@@ -47,6 +47,15 @@ C['C14']=dict(engine="vsched", design="DESIGN.md §6 C14",
   technique="exhaustive schedule exploration up to a preemption bound of application / clock / peer / Close threads against the exporter's own background goroutines on an in-memory connection; log oracle + deadlock, leak, crash and in-model data-race detection",
   text="Five scenarios (UDP refresh vs application, two refreshes, concurrent Close calls, TCP peer close noticed by the connection check, checker-initiated close racing Close) explored to 2 (thorough 3) preemptions: every write is one whole well-formed message, refreshes retransmit all templates sent before the tick, sends fail after a noticed peer close, Close always returns, leaves no thread and no later write, and no field access races.",
   note="Trusted: vsched/vnet models. Background goroutines are allowed to start before the scenario begins (a start delayed by a whole refresh interval is not considered). A Close overlapping another Close still in progress may return before the connection is closed (left open by the statement).")
+
+C['C11']=dict(engine="vsched", design="DESIGN.md §6 C11",
+  technique="exhaustive enumeration of segmentations (every 1-, 2-, (3-)cut, every prefix close) of 17 byte streams, each executed on the real collector over the in-memory network under the controlled scheduler, with both read-delivery modes; a subset additionally schedule-explored",
+  text="For two valid streams and fifteen streams with one undecodable message (5 kinds x 3 positions): no cut, every single cut, every pair of cuts, a peer close after every prefix, each with reads that return one segment and reads that coalesce (about 100k cases quick; thorough adds all pairs for every stream, all triples on a two-message stream and all 2^19 segmentations of the first 20 bytes): the collector must deliver exactly the decodable prefix, decoded correctly, close the connection at the first undecodable message, and leave a second connection unaffected.",
+  note="Trusted: vnet read model, refcodec/colmodel. Streams of up to 4 short messages. Schedules: the default one per case plus 1-delay exploration on a subset (full schedule exploration of the collector is C12).")
+C['C12']=dict(engine="vsched", design="DESIGN.md §6 C12",
+  technique="delay-bounded exhaustive schedule exploration (every schedule with at most 3, thorough 4, departures from the deterministic default scheduler) of six client/Stop scenarios on the real collector over the in-memory network; deadlock, leak, WaitGroup-misuse, crash and in-model data-race detection",
+  text="Two and three TCP clients, a client dying mid-message, two UDP remotes, each also against a concurrent Stop: per connection the deliveries equal (with Stop: are a prefix of) what was sent, in order, decoded correctly; the connection count returns to zero; Stop returns in every schedule; the instant it returns no goroutine started by the collector is alive, afterwards the socket is closed and nothing more is delivered; no data race in any explored schedule.",
+  note="Trusted: vsched/vnet models. About 10 threads per scenario make preemption bounding infeasible, so the bound counts delays (Emmi-Qadeer-Rakamaric): a polynomial, still exhaustive-within-bound space. TLS not under the scheduler. The scenario begins once Start() has finished initialising. <= 3 clients.")
 checks=[]
 for pid in sorted(C):
     c=C[pid]
